@@ -6,24 +6,10 @@ of the current tree); spec: `Spec/Lww.lean`.  `F` (forgiveness, ms) and the numb
 arbitrary.  `legacy_counterexample` at the end is the negation witness for the pinned acceptance
 rule (defect D1).
 -/
-import Datacake.Lemmas.OrswotVersions
+import Datacake.Lemmas.Apply
 
 namespace Datacake.C04
 open Datacake.Lww Datacake.OrSwot Datacake.Ts
-
-/-- An operation together with the source it arrives through. -/
-structure SrcOp where
-  src : Nat
-  op : Op
-
-/-- One `insert_with_source` / `delete_with_source` call. -/
-def applyOp (F : Nat) (s : OrSwot) (o : SrcOp) : OrSwot × Bool :=
-  if o.op.isDel then deleteWithSource F s o.src o.op.key o.op.ts
-  else insertWithSource F s o.src o.op.key o.op.ts
-
-/-- Applying a list of operations in arrival order. -/
-def applyAll (F : Nat) (s : OrSwot) (ops : List SrcOp) : OrSwot :=
-  ops.foldl (fun s o => (applyOp F s o).1) s
 
 /-- The property's parenthesis: no operation is older than the forgiveness window relative to what
 the replica has already seen from its origin, at the moment it is applied. -/
@@ -34,47 +20,6 @@ def Accepted (F : Nat) : OrSwot → List SrcOp → Prop
 /-- LWW record of `k` starting from record `r`. -/
 def lwwFrom (r : Option Nat) (ops : List Op) (k : Nat) : Option Nat :=
   ops.foldl (fun acc o => if o.key = k then join acc (rank o) else acc) r
-
-/-- One accepted operation is exactly one LWW join on its key; the Boolean result says whether the
-record changed; `Disj` is kept. -/
-theorem applyOp_step (F : Nat) (s : OrSwot) (o : SrcOp) (hd : Disj s)
-    (ha : isBefore s.safe o.op.ts = false) :
-    (∀ k, view (applyOp F s o).1 k = if k = o.op.key then join (view s k) (rank o.op) else view s k) ∧
-    Disj (applyOp F s o).1 ∧
-    ((applyOp F s o).2 = true ↔ Newer (view s o.op.key) (rank o.op)) := by
-  unfold applyOp rank
-  have htu : tryUpdateMax F s o.src o.op.ts ≠ none := by
-    unfold tryUpdateMax; rw [ha]; simp
-  cases htv : tryUpdateMax F s o.src o.op.ts with
-  | none => exact absurd htv htu
-  | some p =>
-    obtain ⟨maxs', safe'⟩ := p
-    have hd' : Disj { s with maxs := maxs', safe := safe' } := hd
-    have hv : ∀ k, view { s with maxs := maxs', safe := safe' } k = view s k := fun _ => rfl
-    by_cases hdel : o.op.isDel = true
-    · simp only [hdel, if_true, deleteWithSource, htv]
-      obtain ⟨h1, h2, h3⟩ := view_deleteCore { s with maxs := maxs', safe := safe' } o.op.key o.op.ts hd'
-      refine ⟨?_, h2, ?_⟩
-      · intro k; rw [h1 k]
-        by_cases hk : k = o.op.key
-        · subst hk; simp [hv]
-        · simp [hk, hv]
-      · rw [h3, hv]
-    · have hdel' : o.op.isDel = false := by simpa using hdel
-      simp only [hdel', insertWithSource, htv, Bool.false_eq_true, if_false]
-      obtain ⟨h1, h2, h3⟩ := view_insertCore { s with maxs := maxs', safe := safe' } o.op.key o.op.ts hd'
-      refine ⟨?_, h2, ?_⟩
-      · intro k; rw [h1 k]
-        by_cases hk : k = o.op.key
-        · subst hk; simp [hv]
-        · simp [hk, hv]
-      · simpa [hv] using h3
-
-/-- A refused operation (older than the cut-off) changes nothing and returns `false`. -/
-theorem applyOp_refused (F : Nat) (s : OrSwot) (o : SrcOp)
-    (ha : isBefore s.safe o.op.ts = true) : applyOp F s o = (s, false) := by
-  unfold applyOp insertWithSource deleteWithSource tryUpdateMax
-  simp [ha]
 
 theorem disj_empty (n : Nat) : Disj (OrSwot.empty n) := fun _ => Or.inl rfl
 
@@ -115,24 +60,6 @@ forgiveness period apart (in time). -/
 def Window (F : Nat) (ops : List SrcOp) : Prop :=
   (∀ a ∈ ops, ValidStamp a.op.ts) ∧
   ∀ a ∈ ops, ∀ b ∈ ops, node a.op.ts = node b.op.ts → dts a.op.ts < dts b.op.ts + F
-
-theorem versInv_applyOp (F : Nat) (s : OrSwot) (o : SrcOp) (S : Nat → Prop) (h : VersInv F s S) :
-    VersInv F (applyOp F s o).1 (fun x => S x ∨ x = o.op.ts) := by
-  cases htv : tryUpdateMax F s o.src o.op.ts with
-  | none =>
-    have : (applyOp F s o).1 = s := by
-      unfold applyOp insertWithSource deleteWithSource; simp [htv]
-    rw [this]; exact versInv_mono F s S _ h (fun x hx => Or.inl hx)
-  | some p =>
-    obtain ⟨maxs', safe'⟩ := p
-    obtain ⟨hinv, _⟩ := tryUpdateMax_inv F s o.src o.op.ts S h maxs' safe' htv
-    unfold applyOp insertWithSource deleteWithSource
-    simp only [htv]
-    split
-    · obtain ⟨e1, e2⟩ := deleteCore_versions { s with maxs := maxs', safe := safe' } o.op.key o.op.ts
-      exact ⟨by rw [e1]; exact hinv.maxs, by rw [e2]; exact hinv.safe⟩
-    · obtain ⟨e1, e2⟩ := insertCore_versions { s with maxs := maxs', safe := safe' } o.op.key o.op.ts
-      exact ⟨by rw [e1]; exact hinv.maxs, by rw [e2]; exact hinv.safe⟩
 
 theorem accepted_of_window_aux (F : Nat) (hF : F % 4 = 0) (all : List SrcOp) (hw : Window F all)
     (ops : List SrcOp) (hsub : ∀ o ∈ ops, o ∈ all) (s : OrSwot) (S : Nat → Prop)
